@@ -27,16 +27,16 @@ PROPS = {
     },
     "C18": {
         "quick": [
-            {"harness": "H_C18_rec", "cases": list(range(32))},
-            {"harness": "H_C18_hdr"}, {"harness": "H_C18_bucket"}, {"harness": "H_C18_names"},
-            {"harness": "H_C18_hash", "cases": list(range(0, 13))},
+            {"harness": "H_C18_rec", "cross": "cvc5", "cases": list(range(32))},
+            {"harness": "H_C18_hdr"}, {"harness": "H_C18_bucket"}, {"harness": "H_C18_names"}, {"harness": "H_C18_meta"},
+            {"harness": "H_C18_hash", "cross": "cvc5", "cases": list(range(0, 13))},
         ],
         "thorough": [
-            {"harness": "H_C18_rec", "cases": list(range(32))},
-            {"harness": "H_C18_hdr"}, {"harness": "H_C18_bucket"}, {"harness": "H_C18_names"},
-            {"harness": "H_C18_hash", "cases": list(range(0, 17))},
+            {"harness": "H_C18_rec", "cross": "cvc5", "cases": list(range(32))},
+            {"harness": "H_C18_hdr"}, {"harness": "H_C18_bucket"}, {"harness": "H_C18_names"}, {"harness": "H_C18_meta"},
+            {"harness": "H_C18_hash", "cross": "cvc5", "cases": list(range(0, 17))},
         ],
-        "covers": {"quick": ["C18.rec.done", "C18.hdr.done", "C18.bucket.done", "C18.names.done", "C18.hash.done"]},
+        "covers": {"quick": ["C18.rec.done", "C18.hdr.done", "C18.bucket.done", "C18.names.done", "C18.hash.done", "C18.meta.done"]},
         "bounds": {"quick": "records: key 0..3 x value 0..3 bytes x {put,delete}, symbolic contents; bucket: all 31 slots and next fully symbolic; header; MurmurHash3 on 0..12 symbolic bytes and symbolic seed",
                    "thorough": "as quick, MurmurHash3 on 0..16 bytes"},
         "assumptions": COMMON_ASSUME,
@@ -45,17 +45,18 @@ PROPS = {
     "C08": {
         "quick": [
             {"harness": "H_C08_iter_s", "cases": list(range(12))},
-            {"harness": "H_C08_iter_q", "cases": list(range(0, 22))},
-            {"harness": "H_C08_iter_big", "cases": list(range(0, 22))},
+            {"harness": "H_C08_iter_q", "cross": "cvc5", "cases": list(range(0, 22))},
+            {"harness": "H_C08_iter_big", "cross": "cvc5", "cases": list(range(0, 22))},
             {"harness": "H_C08_two", "cases": list(range(0, 28))},
         ],
         "thorough": [
             {"harness": "H_C08_iter_s", "cases": list(range(12))},
-            {"harness": "H_C08_iter_q", "cases": list(range(0, 38))},
-            {"harness": "H_C08_iter_big", "cases": list(range(0, 38))},
+            {"harness": "H_C08_iter_q", "cross": "cvc5", "cases": list(range(0, 38))},
+            {"harness": "H_C08_iter_big", "cross": "cvc5", "cases": list(range(0, 38))},
             {"harness": "H_C08_two", "cases": list(range(0, 40))},
+            {"harness": "H_C08_crc", "timeout_ms": 900000, "cross": "z3-new", "maxsec": 3300},
         ],
-        "covers": {"quick": ["C08.iter.done", "C08.iter.tail-discarded", "C08.iter.record-from-tail-accepted", "C08.two.done", "C08.two.damaged-then-intact"]},
+        "covers": {"quick": ["C08.iter.done", "C08.iter.tail-discarded", "C08.iter.record-from-tail-accepted", "C08.two.done", "C08.two.damaged-then-intact"], "thorough": ["C08.iter.done", "C08.iter.tail-discarded", "C08.iter.record-from-tail-accepted", "C08.two.done", "C08.two.damaged-then-intact", "C08.crc.done"]},
         "bounds": {"quick": "segment = header + p in {0,1} valid records + T fully symbolic tail bytes, T = 0..16; claimed record size <= 64 (exact framing) and > 64 up to 2^31+65545 (symbolic-length allocation)",
                    "thorough": "T = 0..24"},
         "assumptions": COMMON_ASSUME,
@@ -63,10 +64,10 @@ PROPS = {
     },
     "C19": {
         "quick": [
-            {"harness": "H_C19_alloc", "cases": list(range(0, 8))},
+            {"harness": "H_C19_alloc", "cross": "cvc5", "cases": list(range(0, 8))},
         ],
         "thorough": [
-            {"harness": "H_C19_alloc", "cases": list(range(0, 16))},
+            {"harness": "H_C19_alloc", "cross": "cvc5", "cases": list(range(0, 16))},
         ],
         "covers": {"quick": ["C19.done"]},
         "bounds": {"quick": "header + p in {0,1} valid records + fully symbolic tail of 6..15 bytes; every make/append executed during recoveryIterator.next is an obligation size <= 2*(bytes present)+64KiB, size being a symbolic expression of the 6 header bytes (all 2^48 headers at once)",
@@ -106,8 +107,10 @@ PROPS = {
         "quick": [
             {"harness": "H_C03_q", "cases": list(range(7)), "scale": SC},
             {"harness": "H_C03_tear", "cases": list(range(7)), "scale": SC},
+            {"harness": "H_C03_tearhdr", "cases": [0, 1], "scale": SC},
         ],
         "thorough": [
+            {"harness": "H_C03_tearhdr", "cases": list(range(7)), "scale": SC},
             {"harness": "H_C03_t", "cases": list(range(7)), "scale": SC},
             {"harness": "H_C03_tear", "cases": list(range(7)), "scale": SC},
         ],
@@ -122,8 +125,10 @@ PROPS = {
             {"harness": "H_C04_q", "cases": list(range(5)), "scale": SC},
             {"harness": "H_C04_tear", "cases": list(range(5)), "scale": SC},
             {"harness": "H_C04_reuse", "scale": SC},
+            {"harness": "H_C04_tearhdr", "cases": [0, 1], "scale": SC},
         ],
         "thorough": [
+            {"harness": "H_C04_tearhdr", "cases": list(range(5)), "scale": SC},
             {"harness": "H_C04_reuse", "scale": SC},
             {"harness": "H_C04_t", "cases": list(range(5)), "scale": SC},
             {"harness": "H_C04_tear", "cases": list(range(5)), "scale": SC},
